@@ -235,6 +235,14 @@ func (te *tableEngine) batchAddPlayers(players []JoinPlayer) error {
 
 		newPlayerIdx := len(te.table.State.PlayerStates) + len(newPlayers) - 1
 		newSeatMap[seat] = newPlayerIdx
+
+		// the seat manager takes a newly seated player to have chips: tell it when a seat is taken
+		// without a buy-in (chips bought later with PlayerRedeemChips make the player eligible)
+		if player.Bankroll <= 0 {
+			if err := te.sm.UpdatePlayerHasChips(player.PlayerID, false); err != nil {
+				return err
+			}
+		}
 	}
 
 	te.table.State.SeatMap = newSeatMap
